@@ -41,6 +41,12 @@ func c16Values(tier string) []c16Val {
 			}
 		}
 	}
+	// larger than every internal buffer (bufio 4 kB, flate window 32 kB): 70 kB string, 300 items
+	big := make([]c16Item, 300)
+	for i := range big {
+		big[i] = c16Item{fmt.Sprintf("key-%d-é", i), int64(i) * 1234567891011}
+	}
+	out = append(out, c16Val{7, strings.Repeat("0123456789abcdef<&>é", 3500), nil}, c16Val{math.MinInt64, "items", big}, c16Val{1, strings.Repeat("x", 4096), big[:2]})
 	return out
 }
 
